@@ -1051,6 +1051,34 @@ fn gen_c08(out: &mut Out, rng: &mut Rng, thorough: bool) {
             out.job(move || pair_line(&inp, e, md, v, a.min(b), a.max(b)));
         }
     }
+    // uniform payloads (long runs of zeros, NUL / 0xFF bytes, one repeated character) in medium and large symbols: the
+    // candidates' penalties are then far apart, which is where shortcuts in the mask search go wrong
+    {
+        let mut uni: Vec<(Vec<u8>, usize, usize)> = vec![
+            (vec![b'0'; 400], 2, 0),
+            ({ let mut x = vec![b'1']; x.extend(vec![b'0'; 651]); x }, 0, 0),
+            (vec![0u8; 200], 2, 2),
+            (vec![0xFFu8; 300], 1, 2),
+            (vec![b'A'; 500], 1, 1),
+        ];
+        if thorough {
+            uni.push((vec![b'0'; 2000], 0, 0));
+            uni.push((vec![0u8; 1000], 0, 2));
+            uni.push((vec![b' '; 800], 3, 1));
+        }
+        for (inp, e, md) in uni {
+            if let Some(ver) = h::version_get(mode_of(md), ecl_of(e), inp.len()) {
+                let v = ver as usize;
+                for a in 0..8 {
+                    for b in (a + 1)..8 {
+                        if !thorough && (a + b) % 2 == 0 && a != 0 { continue; }
+                        let i2 = inp.clone();
+                        out.job(move || pair_line(&i2, e, md, v, a, b));
+                    }
+                }
+            }
+        }
+    }
     let versions: Vec<usize> = if thorough { (0..40).collect() } else { vec![0, 1, 6, 13, 26, 39] };
     for v in versions {
         let reps = if thorough { 3 } else { 1 };
